@@ -143,7 +143,7 @@ def handle : Handler := fun op args =>
   | "c04.veq" => withArgs (do let u ← pRats; let v ← pRats; pure (u, v)) args fun (u, v) => "ok " ++ b01 (veq u v)
   | "c04.meq" => withArgs (do let a ← pMat; let b ← pMat; pure (a, b)) args fun (a, b) => "ok " ++ b01 (meq a b)
   | "c04.vnorm" => withArgs pRats args fun u => "ok " ++ showRat (vnormScaledSq 0 u)     -- the square (as coded, 8a680df)
-  | "c04.mnorm" => withArgs pMat args fun a => "ok " ++ showRat (normSq a)       -- the square
+  | "c04.mnorm" => withArgs pMat args fun a => "ok " ++ showRat (normScaledSq 0 a)       -- the square (as coded, 75466a1)
   | "c04.vget" => withArgs (do let u ← pRats; let i ← pNat; pure (u, i)) args fun (u, i) => ansR (vget u i)
   | "c04.mget" => withArgs (do let a ← pMat; let i ← pNat; let j ← pNat; pure (a, i, j)) args fun (a, i, j) => ansR (mget a i j)
   -- algebraic laws evaluated by the harness on the implementation: (A·B)ᵀ = BᵀAᵀ, A·1 = A, 1·A = A,
